@@ -28,6 +28,20 @@ def san(kind, bin, name=None, scale=20, tiers=T, **kw):
     return d
 
 
+def script(name, script, tiers=QT, **kw):
+    d = {"name": name, "kind": "script", "script": script, "tiers": tiers}
+    d.update(kw)
+    return d
+
+
+def gen(prop, tiers=QT, **kw):
+    """generated-programs lane (bin/genlane -> harness/vgen)."""
+    d = {"name": "generated-programs", "kind": "script", "script": "genlane", "tiers": tiers, "args": {"prop": prop},
+         "timeout": {"quick": 900, "thorough": 3600}}
+    d.update(kw)
+    return d
+
+
 MANIFEST_TEXT = (
     "Every check is `bin/check <ID> <tier>`: it rebuilds the monitors against /repo's working tree with the hooks on, "
     "runs the lanes listed in bin/lanes.py, merges what they measured into evidence/<ID>.json and filters violations "
